@@ -87,6 +87,24 @@ CHECKS = {
         design_ref="3 C06",
         technique="symbolic execution of the real Python functions with CrossHair (z3) over an engine stub; replay on the real stack",
     ),
+    "C07": dict(
+        category="other",
+        text="Bounded symbolic execution (CrossHair/z3) of the real error-translation path: 32 ways of naming something missing or duplicate at "
+        "every qualification level, inside/outside a transaction, with follow-up use; DuckDB errors injected at a statement's first engine "
+        "call through execute/executemany/execute_string; every public entry point on a closed connection.  Codes, sqlstate life cycle and "
+        "frame conditions (session, variables, catalog, side tables, open transaction) are asserted; replay on real DuckDB.",
+        design_ref="3 C07",
+        technique="symbolic execution of the real Python functions with CrossHair (z3) over a fault-injecting engine stub; replay on the real stack",
+    ),
+    "C13": dict(
+        category="model_checking",
+        text="Bounded symbolic model checking of one step of the (sessions x cursors x transaction flags) machine through the real code: routing "
+        "lemma (each statement and no hidden BEGIN/COMMIT/ROLLBACK reaches exactly its session's DuckDB connection), structural invariant "
+        "(cursors share, sessions do not) for symbolic connect/cursor orders, no-op COMMIT/ROLLBACK.  Atomicity/visibility then follow "
+        "from DuckDB's transaction contract (trusted, exercised in the replays).",
+        design_ref="3 C13",
+        technique="CrossHair (z3) exploration of one inductive step of the real code over an engine stub with per-connection transaction state; replay on real DuckDB",
+    ),
 }
 
 NOT_YET = "not claimed yet: check not built in this round (see DESIGN.md 7 for the order of work)"
